@@ -140,9 +140,22 @@ let step_l (s : state2) (l : label) : state2 option = step2 s (L1 l)
 
 let replay () =
   let st = ref (Some start2) in
+  (* the finer system of Client/Rendezvous.v beside the canonical replay: after a commit (`commit rx`) the next
+     action - the step that makes the receiver ready - is also given to xstep, and what xstep reaches with it must
+     be what step2 reaches with that action AND the loop's hand-over that follows (C09_early_handover_refines) *)
+  let shadow : xstate option ref = ref None in
+  let shadow_after : xstate option ref = ref None in
   iter_lines (fun l ->
     match split_tab l with
-    | "B" :: _ -> st := Some start2
+    | "B" :: _ -> st := Some start2; shadow := None; shadow_after := None
+    | "A" :: idx :: n :: "commit rx" :: _ ->
+      (match !st with
+       | None -> Printf.printf "M\t%s\t%s\tREJECTED-EARLIER\n" idx n
+       | Some s ->
+         (match step_l s (LStep (ARx, Z0)), xstep (plain s) (L1 (LStep (ARx, Z0))) with
+          | None, Some x when x.committed && x.cur = s -> shadow := Some x; Printf.printf "M\t%s\t%s\tcommitted\n" idx n
+          | Some _, _ -> Printf.printf "M\t%s\t%s\tREJECT:the-receiver-listens(no-commit)\n" idx n; st := None
+          | _, _ -> Printf.printf "M\t%s\t%s\tREJECT:not-a-send\n" idx n; st := None))
     | "P" :: _ :: "seq" :: v :: _ ->
       (* the session starts with this seq_no (the client's counter was set before the run) *)
       (match !st with Some s -> st := Some { s with base = { s.base with seqno = zs v } } | None -> ())
@@ -177,7 +190,27 @@ let replay () =
           | Some lab ->
             (match step_l s lab with
              | None -> Printf.printf "M\t%s\t%s\tREJECT:not-enabled\n" idx n; st := None
-             | Some s' -> Printf.printf "M\t%s\t%s\t%s\n" idx n (project s lab s'); st := Some s')))
+             | Some s' ->
+               let is_rx = (match lab with LStep (ARx, _) -> true | _ -> false) in
+               let ok () = Printf.printf "M\t%s\t%s\t%s\n" idx n (project s lab s'); st := Some s' in
+               (match !shadow, !shadow_after with
+                | _, Some x' when is_rx ->
+                  (* the canonical hand-over: the state must be the one the finer system has reached already *)
+                  shadow_after := None;
+                  if x'.cur = s' then ok ()
+                  else (Printf.printf "M\t%s\t%s\tREJECT:finer-system-differs\n" idx n; st := None)
+                | _, Some x' ->
+                  (* somebody else moves before the canonical hand-over is written down (a sender that got the lock) *)
+                  (match xstep x' (L1 lab) with
+                   | Some x'' -> shadow_after := Some x''; ok ()
+                   | None -> Printf.printf "M\t%s\t%s\tREJECT:finer-system-refuses\n" idx n; st := None)
+                | Some x, None ->
+                  (* after the commit: the finer system takes the action (and completes the send if it can) *)
+                  (match xstep x (L1 lab) with
+                   | Some x' when not x'.committed -> shadow := None; shadow_after := Some x'; ok ()
+                   | Some x' -> shadow := Some x'; ok ()
+                   | None -> Printf.printf "M\t%s\t%s\tREJECT:finer-system-refuses\n" idx n; st := None)
+                | None, None -> ok ()))))
     | "F" :: idx :: _ ->
       (match !st with
        | Some s2 ->
